@@ -1,6 +1,6 @@
 """like dev.py but prints only non-ok or slow (>2s) obligations"""
 import sys, time
-sys.path.insert(0, "/tmp/vdev")
+sys.path.insert(0, "/verif")
 from pyvc import contracts as C, engine as E, backend
 C.load_all()
 pat = sys.argv[1]; prop = sys.argv[2] if len(sys.argv) > 2 else None
